@@ -139,6 +139,17 @@ func (d *Down) addLocked(db, name string, shards int, parts ...string) *Coll {
 	return c
 }
 
+// AddCollectionOn installs a downstream collection whose shard i lives on the given physical channel.
+func (d *Down) AddCollectionOn(db, name string, pchannels []string, parts ...string) *Coll {
+	d.mu.Lock()
+	defer d.mu.Unlock()
+	saved := d.PChannels
+	d.PChannels = pchannels
+	c := d.addLocked(db, name, len(pchannels), parts...)
+	d.PChannels = saved
+	return c
+}
+
 func (d *Down) Collection(db, name string) *Coll {
 	d.mu.Lock()
 	defer d.mu.Unlock()
